@@ -31,6 +31,9 @@ type ProgCfg struct {
 	VDR bool
 	// Values config for literals.
 	Values ValueCfg
+	// Views: some stage inputs are structs mirroring the outputs of an
+	// earlier stage (whole calls get bound to them).
+	Views bool
 	// MapOnlyInTop: map calls appear only in the body of the pipeline the
 	// top-level call invokes.
 	MapOnlyInTop bool
@@ -84,6 +87,9 @@ type pgen struct {
 	forceMerged *source
 	// reserved: index of a parameter genMapSources must leave alone (-1: none).
 	reserved int
+	// ext: cache of extU.
+	ext  *Universe
+	extN int
 	// palette: element types most stage parameters are built from.
 	palette   []Ty
 	noPalette bool
@@ -107,7 +113,7 @@ func (g *pgen) assignable(dst, src Ty) bool {
 	if dst.Arr == 0 && (dst.Map > 0) != (src.Map > 0) {
 		return false
 	}
-	ok := g.cfg.Assignable(g.u, dst, src)
+	ok := g.cfg.Assignable(g.extU(), dst, src)
 	if ok && g.cfg.Exclude["typed-map-to-untyped-map"] && g.typedMapToMap(dst, src, 0) {
 		g.excluded("typed-map-to-untyped-map")
 		return false
@@ -123,6 +129,63 @@ func (g *pgen) assignable(dst, src Ty) bool {
 		return false
 	}
 	return ok
+}
+
+// extU is the universe extended by the implicit output structs of the
+// callables generated so far (a whole call is a value of that struct type).
+func (g *pgen) extU() *Universe {
+	n := len(g.prog.Stages) + len(g.prog.Pipelines) + len(g.u.Structs)
+	if g.ext != nil && g.extN == n {
+		return g.ext
+	}
+	u := &Universe{FileTypes: g.u.FileTypes}
+	u.Structs = append(u.Structs, g.u.Structs...)
+	add := func(name string, outs []Param) {
+		if len(outs) == 0 {
+			return
+		}
+		st := &Struct{Name: name}
+		for _, o := range outs {
+			st.Fields = append(st.Fields, Field{Name: o.Name, T: o.T})
+		}
+		u.Structs = append(u.Structs, st)
+	}
+	for _, st := range g.prog.Stages {
+		add(st.Name, st.Outs)
+	}
+	for _, pl := range g.prog.Pipelines {
+		if pl != g.pl {
+			add(pl.Name, pl.Outs)
+		}
+	}
+	g.ext, g.extN = u, n
+	return u
+}
+
+// viewOf declares a struct that mirrors the outputs of a stage - the same
+// names, member types the outputs convert to (a wider struct variant is seen
+// as the struct it widens, an int as a float), all of them or some - so that
+// a whole call can be bound where the view is expected.
+func (g *pgen) viewOf(src *Stage, tag string) (Ty, bool) {
+	if len(src.Outs) == 0 {
+		return Ty{}, false
+	}
+	v := &Struct{Name: fmt.Sprintf("V%s_%s", src.Name, tag)}
+	keepAll := rapid.Bool().Draw(g.t, "viewKeepsAll")
+	for i, o := range src.Outs {
+		if !keepAll && i > 0 && rapid.Bool().Draw(g.t, "viewDrops") {
+			continue
+		}
+		ft := o.T
+		if w := g.u.Struct(ft.Base); w != nil && w.WiderOf != "" {
+			ft.Base = w.WiderOf
+		} else if ft.Base == "int" && rapid.Bool().Draw(g.t, "viewIntAsFloat") {
+			ft.Base = "float"
+		}
+		v.Fields = append(v.Fields, Field{Name: o.Name, T: ft})
+	}
+	g.u.Structs = append(g.u.Structs, v)
+	return Ty{Base: v.Name}, true
 }
 
 // flagRefOf returns a reference to a bool output of a stage call.
@@ -364,6 +427,15 @@ func (g *pgen) genStage(i int) *Stage {
 	nin := rapid.IntRange(1, 3).Draw(t, "nIns")
 	for j := 0; j < nin; j++ {
 		s.Ins = append(s.Ins, Param{Name: inNames[j], T: g.genStageType("in")})
+	}
+	if g.cfg.Views && len(g.prog.Stages) > 0 && rapid.IntRange(0, 3).Draw(t, "viewParam") == 0 {
+		src := g.prog.Stages[rapid.IntRange(0, len(g.prog.Stages)-1).Draw(t, "viewOfStage")]
+		if vt, ok := g.viewOf(src, s.Name); ok {
+			if rapid.IntRange(0, 3).Draw(t, "viewArray") == 0 {
+				vt = vt.ArrayOf()
+			}
+			s.Ins[rapid.IntRange(0, len(s.Ins)-1).Draw(t, "viewAt")].T = vt
+		}
 	}
 	nout := rapid.IntRange(1, 3).Draw(t, "nOuts")
 	for j := 0; j < nout; j++ {
